@@ -359,6 +359,29 @@ static void insert_arg_range(rtosc_arg_val_t* arg, int32_t num,
 
 static const char* numeric_range_types() { return "cihfdTF"; }
 
+//! whether b - a can be computed in the (integer) type of a and b
+static int diff_fits(const rtosc_arg_val_t* a, const rtosc_arg_val_t* b)
+{
+    if(a->type != b->type)
+        return 0;
+    switch(a->type)
+    {
+        case 'c':
+        case 'i':
+        {
+            int64_t w = (int64_t)b->val.i - (int64_t)a->val.i;
+            return w >= INT32_MIN && w <= INT32_MAX;
+        }
+        case 'h':
+        {
+            int64_t w;
+            return !__builtin_sub_overflow(b->val.h, a->val.h, &w);
+        }
+        default:
+            return 1;
+    }
+}
+
 static const char* numeric_range_convertible_types()
 {
     // note: floats can not be converted to counting ranges safely
@@ -396,7 +419,8 @@ static int32_t rtosc_convert_to_range(const rtosc_arg_val_t* const arg,
 
     if(rtosc_arg_vals_eq_single(arg, arg + incsize(arg), NULL))
         has_delta = 0;
-    else if(strchr(numeric_range_convertible_types(), arg->type)) {
+    else if(strchr(numeric_range_convertible_types(), arg->type) &&
+            diff_fits(arg, arg+1)) {
         has_delta = 1;
         rtosc_arg_val_sub(arg+1, arg, &delta);
     }
@@ -409,12 +433,21 @@ static int32_t rtosc_convert_to_range(const rtosc_arg_val_t* const arg,
         {
             next = skipped + incsize(arg+skipped);
 
-            if(has_delta)
-                rtosc_arg_val_add(arg+skipped, &delta, &added);
-
-            if(next >= size || !rtosc_arg_vals_eq_single(has_delta ? &added
-                                                                   : arg,
-                                                         arg+next, NULL))
+            if(next >= size)
+                go_on = false;
+            else if(has_delta)
+            {
+                // the run goes on if the next step equals delta, and if the
+                // scanner can compute "last - first" (no overflow)
+                if(diff_fits(arg+skipped, arg+next) && diff_fits(arg, arg+next))
+                {
+                    rtosc_arg_val_sub(arg+next, arg+skipped, &added);
+                    go_on = rtosc_arg_vals_eq_single(&added, &delta, NULL);
+                }
+                else
+                    go_on = false;
+            }
+            else if(!rtosc_arg_vals_eq_single(arg, arg+next, NULL))
                 go_on = false;
         }
     }
